@@ -111,6 +111,15 @@ var harnesses = map[string]*Harness{
 			zz + "h4chain/faults_test.go":    "harness/h4chain/faults_test.go",
 			zz + "h4chain/phasec_test.go":    "harness/h4chain/phasec_test.go",
 			zz + "h4chain/transport_test.go": "harness/h4chain/transport_test.go",
+			zz + "h4chain/reports_test.go":   "harness/h4chain/reports_test.go",
+			zz + "h4chain/refb_test.go":      "harness/h4chain/refb_test.go",
+			zz + "pvmasm/asm.go":             "harness/pvmasm/asm.go",
+		},
+		// Go's map iteration order is a source of nondeterminism the state codec meets on every export / import:
+		// every `range` over a map in these files iterates a permutation derived from the tape
+		Instrument: []InstrSpec{
+			{File: "internal/utilities/merklization/parse_state_key_vals.go", Opt: instrument.Options{MapOrder: true, MinMap: 4}},
+			{File: "internal/utilities/merklization/state_serialize.go", Opt: instrument.Options{MapOrder: true, MinMap: 4}},
 		},
 		GoMaxProcs: 2,
 	},
@@ -156,12 +165,12 @@ var checks = []Check{
 		Rule:         "one evaluation = one generated history: synthetic tiny genesis (6 trivial-seed validators, 1-3 services with storage / stored / solicited preimages, authorizer pools with duplicates), an author-built block tree (slot gaps across epoch boundaries, tickets, preimages, disputes with real Ed25519 votes, forks), then a delivery schedule with up to 8 faults: a block mutated so that it is rejected at a chosen STF stage (header, disputes, safrole, seal/entropy, extrinsic), re-delivery of the rejected block, a child of the rejected block, a second different invalid block, restart from exported state, GetState of an unknown hash. The schedule is run twice on fresh incarnations: N2 without the blocks a clean node rejects, N1 with them; N1 must answer every valid delivery exactly like N2 (accept/reject, root, GetState) and GetState(head) must be unchanged after every rejection; the same valid sequence on two fresh nodes must give identical roots. non-trivial = at least 3 valid blocks; distinct = decision tape hash",
 		Real:         []string{"internal/fuzz.FuzzServiceStub SetState / ImportBlock / GetState", "internal/stf.RunSTF with every stage (safrole, disputes, assurances, reports, accumulation, history, preimages, authorizations, statistics)", "internal/blockchain.ChainState commit / restore / prune, stores on the in-memory provider, leaf cache", "state codec (StateEncoder / StateKeyValsToState) and block codec on every delivery"},
 		Stub:         []string{vrfStub, "block author = harness code (fallback and ticket seals through the stand-in, real Ed25519 for disputes); it is not an oracle", "multi-node = sequential incarnations of the process-wide chain-state singleton separated by SetState"},
-		Assumptions:  []string{"the VRF is a stand-in: nothing about Bandersnatch is decided and ticket identifiers are stand-in outputs", "one chain state per process: the clean reference node and the node under test are sequential incarnations", "blocks come from the harness author: chains of 3-30 (thorough 60) blocks over several epochs with tickets, preimages and disputes; no guarantees/assurances yet (stage A)"},
+		Assumptions:  []string{"the VRF is a stand-in: nothing about Bandersnatch is decided and ticket identifiers are stand-in outputs", "one chain state per process: the clean reference node and the node under test are sequential incarnations", "blocks come from the harness author: chains of 3-30 (thorough 60) blocks over several epochs with tickets, preimages, disputes (also against pending reports), assurances, guarantees (current and previous rotation, dependencies between packages) and the accumulation of the reports that become available by real PVM runs of small generated service programs (write, checkpoint, assign, transfer, yield)"},
 		LevelText:    "seeded exploration of block histories with injected rejections at every STF stage, retries, orphans and restarts; the oracle is a second incarnation of the real node that never saw the rejected blocks; evidence, not proof",
 		LevelNote:    "what \"same result\" means: accept/reject decision, returned root, GetState key-value set (error texts are logged, not compared); the observation that a node which imported other VALID branches can answer differently from a node that imported only a block's ancestry is counted as a by-product (not claimed by the property text)",
 		Technique:    "deterministic simulation of the node under seeded block histories with fault injection (invalid blocks rejected at chosen STF stages, retries, children of rejected blocks, forks, restarts from exported state), reference-node and reference-model oracles, tape shrinking + fresh-process replay",
 		DesignRef:    "DESIGN.md §4 H4, Appendix A",
-		ExpectProbes: []string{"fault:delivered_invalid", "fault:delivered_retry", "fault:delivered_orphan", "fault:restart_from_export", "probe:valid_block_accepted_after_fault", "rejections_by_stage:2", "rejections_by_stage:4", "rejections_by_stage:5", "rejections_by_stage:6", "rejections_by_stage:7", "fault:fork_sibling_built"},
+		ExpectProbes: []string{"fault:delivered_invalid", "fault:delivered_retry", "fault:delivered_orphan", "fault:restart_from_export", "probe:valid_block_accepted_after_fault", "rejections_by_stage:2", "rejections_by_stage:4", "rejections_by_stage:5", "rejections_by_stage:6", "rejections_by_stage:7", "rejections_by_stage:8", "rejections_by_stage:9", "fault:fork_sibling_built", "fault:damaged_block_is_a_sibling", "probe:reports_became_available_in_history"},
 	},
 	{
 		Property: "C17", Harness: "h4chain", Level: "exploration",
@@ -171,12 +180,12 @@ var checks = []Check{
 		Rule:         "one evaluation = one generated history: synthetic tiny genesis (6 trivial-seed validators, 1-3 services with storage / stored / solicited preimages, authorizer pools with duplicates), an author-built block tree (slot gaps across epoch boundaries, tickets, preimages, disputes with real Ed25519 votes, forks), every exported state (GetState after every accepted block, on fresh incarnations) is parsed back and re-serialised together with its raw entries and must give the exported key-value set; restarts: SetState with the export in a permuted key order (with or without ancestry) must return the root of the exported set and export the same set again, and the node must then continue like the node that was not restarted (C26 oracle)",
 		Real:         []string{"internal/fuzz.FuzzServiceStub SetState / ImportBlock / GetState", "internal/stf.RunSTF with every stage (safrole, disputes, assurances, reports, accumulation, history, preimages, authorizations, statistics)", "internal/blockchain.ChainState commit / restore / prune, stores on the in-memory provider, leaf cache", "state codec (StateEncoder / StateKeyValsToState) and block codec on every delivery"},
 		Stub:         []string{vrfStub, "block author = harness code (fallback and ticket seals through the stand-in, real Ed25519 for disputes); it is not an oracle", "multi-node = sequential incarnations of the process-wide chain-state singleton separated by SetState"},
-		Assumptions:  []string{"the VRF is a stand-in: nothing about Bandersnatch is decided and ticket identifiers are stand-in outputs", "one chain state per process: the clean reference node and the node under test are sequential incarnations", "blocks come from the harness author: chains of 3-30 (thorough 60) blocks over several epochs with tickets, preimages and disputes; no guarantees/assurances yet (stage A)"},
+		Assumptions:  []string{"the VRF is a stand-in: nothing about Bandersnatch is decided and ticket identifiers are stand-in outputs", "one chain state per process: the clean reference node and the node under test are sequential incarnations", "blocks come from the harness author: chains of 3-30 (thorough 60) blocks over several epochs with tickets, preimages, disputes (also against pending reports), assurances, guarantees (current and previous rotation, dependencies between packages) and the accumulation of the reports that become available by real PVM runs of small generated service programs (write, checkpoint, assign, transfer, yield)"},
 		LevelText:    "seeded exploration; restart-from-export and fork-restore are the injected faults; evidence, not proof. State richness is limited to what stage-A blocks produce (services with storage, stored and solicited preimages, tickets, disputes, statistics)",
 		LevelNote:    "raw (unattributable) entries appear only if the parser leaves any; the comparison is on key-value sets",
 		Technique:    "deterministic simulation of the node under seeded block histories with fault injection (invalid blocks rejected at chosen STF stages, retries, children of rejected blocks, forks, restarts from exported state), reference-node and reference-model oracles, tape shrinking + fresh-process replay",
 		DesignRef:    "DESIGN.md §4 H4, Appendix A",
-		ExpectProbes: []string{"probe:export_roundtrip_checked", "fault:restart_from_export"},
+		ExpectProbes: []string{"probe:export_roundtrip_checked", "probe:export_with_raw_entries", "fault:restart_from_export"},
 	},
 	{
 		Property: "C23", Harness: "h4chain", Level: "exploration",
@@ -186,12 +195,12 @@ var checks = []Check{
 		Rule:         "one evaluation = one generated history: synthetic tiny genesis (6 trivial-seed validators, 1-3 services with storage / stored / solicited preimages, authorizer pools with duplicates), an author-built block tree (slot gaps across epoch boundaries, tickets, preimages, disputes with real Ed25519 votes, forks), for every block a fresh node accepts, the reference ticket accumulator (lowest identifiers of carried-over and new tickets, strictly increasing, at most E, reset at an epoch change) and the reference slot-sealer sequence (unchanged within an epoch; outside-in of a full accumulator when the epoch advances by one and the prior slot index is at or after the submission end; otherwise entropy-derived fallback keys) are compared with the exported state; blocks with unsorted, duplicated, over-attempt or late tickets must be rejected by a fresh node",
 		Real:         []string{"internal/fuzz.FuzzServiceStub SetState / ImportBlock / GetState", "internal/stf.RunSTF with every stage (safrole, disputes, assurances, reports, accumulation, history, preimages, authorizations, statistics)", "internal/blockchain.ChainState commit / restore / prune, stores on the in-memory provider, leaf cache", "state codec (StateEncoder / StateKeyValsToState) and block codec on every delivery"},
 		Stub:         []string{vrfStub, "block author = harness code (fallback and ticket seals through the stand-in, real Ed25519 for disputes); it is not an oracle", "multi-node = sequential incarnations of the process-wide chain-state singleton separated by SetState"},
-		Assumptions:  []string{"the VRF is a stand-in: nothing about Bandersnatch is decided and ticket identifiers are stand-in outputs", "one chain state per process: the clean reference node and the node under test are sequential incarnations", "blocks come from the harness author: chains of 3-30 (thorough 60) blocks over several epochs with tickets, preimages and disputes; no guarantees/assurances yet (stage A)"},
+		Assumptions:  []string{"the VRF is a stand-in: nothing about Bandersnatch is decided and ticket identifiers are stand-in outputs", "one chain state per process: the clean reference node and the node under test are sequential incarnations", "blocks come from the harness author: chains of 3-30 (thorough 60) blocks over several epochs with tickets, preimages, disputes (also against pending reports), assurances, guarantees (current and previous rotation, dependencies between packages) and the accumulation of the reports that become available by real PVM runs of small generated service programs (write, checkpoint, assign, transfer, yield)"},
 		LevelText:    "seeded exploration over multi-epoch histories with a reference model written from the property text; evidence, not proof",
 		LevelNote:    "ticket identifiers are stand-in VRF outputs; ring proofs are stand-in",
 		Technique:    "deterministic simulation of the node under seeded block histories with fault injection (invalid blocks rejected at chosen STF stages, retries, children of rejected blocks, forks, restarts from exported state), reference-node and reference-model oracles, tape shrinking + fresh-process replay",
 		DesignRef:    "DESIGN.md §4 H4, Appendix A",
-		ExpectProbes: []string{"probe:tickets_accumulated", "probe:sealer_sequence_fallback_on_epoch_change", "fault:invalid_block:tickets-unsorted", "fault:invalid_block:tickets-duplicate", "fault:invalid_block:ticket-over-attempt", "fault:invalid_block:tickets-after-submission-window"},
+		ExpectProbes: []string{"probe:tickets_accumulated", "probe:sealer_sequence_fallback_on_epoch_change", "fault:invalid_block:tickets-unsorted", "fault:invalid_block:tickets-duplicate", "fault:invalid_block:ticket-over-attempt", "fault:invalid_block:tickets-after-submission-window", "fault:invalid_block:ticket-already-in-accumulator", "probe:accumulator_full", "probe:sealer_sequence_from_tickets"},
 	},
 	{
 		Property: "C25", Harness: "h4chain", Level: "exploration",
@@ -201,12 +210,12 @@ var checks = []Check{
 		Rule:         "one evaluation = one generated history: synthetic tiny genesis (6 trivial-seed validators, 1-3 services with storage / stored / solicited preimages, authorizer pools with duplicates), an author-built block tree (slot gaps across epoch boundaries, tickets, preimages, disputes with real Ed25519 votes, forks), for every accepted block the reference recent-history transition (previous newest entry gets the block's parent state root; new entry with header hash, zero state root, reported packages sorted by hash and the super-peak of the Keccak mountain range after appending the commitment of the block's accumulation outputs; at most H entries, oldest dropped) and the reference range peaks are compared with the exported state",
 		Real:         []string{"internal/fuzz.FuzzServiceStub SetState / ImportBlock / GetState", "internal/stf.RunSTF with every stage (safrole, disputes, assurances, reports, accumulation, history, preimages, authorizations, statistics)", "internal/blockchain.ChainState commit / restore / prune, stores on the in-memory provider, leaf cache", "state codec (StateEncoder / StateKeyValsToState) and block codec on every delivery"},
 		Stub:         []string{vrfStub, "block author = harness code (fallback and ticket seals through the stand-in, real Ed25519 for disputes); it is not an oracle", "multi-node = sequential incarnations of the process-wide chain-state singleton separated by SetState"},
-		Assumptions:  []string{"the VRF is a stand-in: nothing about Bandersnatch is decided and ticket identifiers are stand-in outputs", "one chain state per process: the clean reference node and the node under test are sequential incarnations", "blocks come from the harness author: chains of 3-30 (thorough 60) blocks over several epochs with tickets, preimages and disputes; no guarantees/assurances yet (stage A)"},
+		Assumptions:  []string{"the VRF is a stand-in: nothing about Bandersnatch is decided and ticket identifiers are stand-in outputs", "one chain state per process: the clean reference node and the node under test are sequential incarnations", "blocks come from the harness author: chains of 3-30 (thorough 60) blocks over several epochs with tickets, preimages, disputes (also against pending reports), assurances, guarantees (current and previous rotation, dependencies between packages) and the accumulation of the reports that become available by real PVM runs of small generated service programs (write, checkpoint, assign, transfer, yield)"},
 		LevelText:    "seeded exploration over histories longer than H with a reference model (own MMR append / super-peak / well-balanced Merkle root); evidence, not proof. Stage A: no guarantees, accumulation outputs are empty",
 		LevelNote:    "the block header hash is the repository's (hash of the encoded header)",
 		Technique:    "deterministic simulation of the node under seeded block histories with fault injection (invalid blocks rejected at chosen STF stages, retries, children of rejected blocks, forks, restarts from exported state), reference-node and reference-model oracles, tape shrinking + fresh-process replay",
 		DesignRef:    "DESIGN.md §4 H4, Appendix A",
-		ExpectProbes: []string{"probe:history_at_capacity", "probe:history_full_oldest_dropped"},
+		ExpectProbes: []string{"probe:history_at_capacity", "probe:history_full_oldest_dropped", "probe:block_with_reported_packages", "probe:block_with_two_or_more_accumulation_outputs"},
 	},
 	{
 		Property: "C34", Harness: "h4chain", Level: "exploration",
@@ -216,12 +225,12 @@ var checks = []Check{
 		Rule:         "one evaluation = one generated history: synthetic tiny genesis (6 trivial-seed validators, 1-3 services with storage / stored / solicited preimages, authorizer pools with duplicates), an author-built block tree (slot gaps across epoch boundaries, tickets, preimages, disputes with real Ed25519 votes, forks), for every accepted block the reference validator records (author: +1 block, +tickets, +preimages, +preimage octets; assurers +1; guarantors +1; at an epoch change current becomes previous and is reset), service records (provided count/size from the preimage extrinsic) and all-zero core records when nothing is reported or available are compared with the exported state",
 		Real:         []string{"internal/fuzz.FuzzServiceStub SetState / ImportBlock / GetState", "internal/stf.RunSTF with every stage (safrole, disputes, assurances, reports, accumulation, history, preimages, authorizations, statistics)", "internal/blockchain.ChainState commit / restore / prune, stores on the in-memory provider, leaf cache", "state codec (StateEncoder / StateKeyValsToState) and block codec on every delivery"},
 		Stub:         []string{vrfStub, "block author = harness code (fallback and ticket seals through the stand-in, real Ed25519 for disputes); it is not an oracle", "multi-node = sequential incarnations of the process-wide chain-state singleton separated by SetState"},
-		Assumptions:  []string{"the VRF is a stand-in: nothing about Bandersnatch is decided and ticket identifiers are stand-in outputs", "one chain state per process: the clean reference node and the node under test are sequential incarnations", "blocks come from the harness author: chains of 3-30 (thorough 60) blocks over several epochs with tickets, preimages and disputes; no guarantees/assurances yet (stage A)"},
+		Assumptions:  []string{"the VRF is a stand-in: nothing about Bandersnatch is decided and ticket identifiers are stand-in outputs", "one chain state per process: the clean reference node and the node under test are sequential incarnations", "blocks come from the harness author: chains of 3-30 (thorough 60) blocks over several epochs with tickets, preimages, disputes (also against pending reports), assurances, guarantees (current and previous rotation, dependencies between packages) and the accumulation of the reports that become available by real PVM runs of small generated service programs (write, checkpoint, assign, transfer, yield)"},
 		LevelText:    "seeded exploration across epoch boundaries with a reference model; evidence, not proof. Stage A: guarantor / assurer / core / refinement / accumulation parts are exercised only with empty inputs",
 		LevelNote:    "",
 		Technique:    "deterministic simulation of the node under seeded block histories with fault injection (invalid blocks rejected at chosen STF stages, retries, children of rejected blocks, forks, restarts from exported state), reference-node and reference-model oracles, tape shrinking + fresh-process replay",
 		DesignRef:    "DESIGN.md §4 H4, Appendix A",
-		ExpectProbes: []string{"probe:statistics_epoch_rollover"},
+		ExpectProbes: []string{"probe:statistics_epoch_rollover", "probe:guarantor_credited", "probe:core_record_nonzero", "probe:service_accumulated_work", "probe:service_refinement_recorded"},
 	},
 	{
 		Property: "C35", Harness: "h4chain", Level: "exploration",
@@ -231,12 +240,12 @@ var checks = []Check{
 		Rule:         "one evaluation = one generated history: synthetic tiny genesis (6 trivial-seed validators, 1-3 services with storage / stored / solicited preimages, authorizer pools with duplicates), an author-built block tree (slot gaps across epoch boundaries, tickets, preimages, disputes with real Ed25519 votes, forks), dispute extrinsics carry verdicts of the three defined outcomes (2/3+1, 0, 1/3 positive votes) with real Ed25519 votes by current or previous-epoch validators and the culprits / faults they require; for every accepted block the reference judgement sets (pairwise disjoint, sorted, grown by exactly the new verdicts) and offender set (sorted, only growing) are compared with the exported state; a verdict with any other vote count must be rejected by a fresh node",
 		Real:         []string{"internal/fuzz.FuzzServiceStub SetState / ImportBlock / GetState", "internal/stf.RunSTF with every stage (safrole, disputes, assurances, reports, accumulation, history, preimages, authorizations, statistics)", "internal/blockchain.ChainState commit / restore / prune, stores on the in-memory provider, leaf cache", "state codec (StateEncoder / StateKeyValsToState) and block codec on every delivery"},
 		Stub:         []string{vrfStub, "block author = harness code (fallback and ticket seals through the stand-in, real Ed25519 for disputes); it is not an oracle", "multi-node = sequential incarnations of the process-wide chain-state singleton separated by SetState"},
-		Assumptions:  []string{"the VRF is a stand-in: nothing about Bandersnatch is decided and ticket identifiers are stand-in outputs", "one chain state per process: the clean reference node and the node under test are sequential incarnations", "blocks come from the harness author: chains of 3-30 (thorough 60) blocks over several epochs with tickets, preimages and disputes; no guarantees/assurances yet (stage A)"},
+		Assumptions:  []string{"the VRF is a stand-in: nothing about Bandersnatch is decided and ticket identifiers are stand-in outputs", "one chain state per process: the clean reference node and the node under test are sequential incarnations", "blocks come from the harness author: chains of 3-30 (thorough 60) blocks over several epochs with tickets, preimages, disputes (also against pending reports), assurances, guarantees (current and previous rotation, dependencies between packages) and the accumulation of the reports that become available by real PVM runs of small generated service programs (write, checkpoint, assign, transfer, yield)"},
 		LevelText:    "seeded exploration with a reference model; evidence, not proof. Stage A: no pending reports, so the 'removed from pending availability' clause is only checked vacuously",
 		LevelNote:    "at most two offenders per history so that enough keyed validators remain to author blocks",
 		Technique:    "deterministic simulation of the node under seeded block histories with fault injection (invalid blocks rejected at chosen STF stages, retries, children of rejected blocks, forks, restarts from exported state), reference-node and reference-model oracles, tape shrinking + fresh-process replay",
 		DesignRef:    "DESIGN.md §4 H4, Appendix A",
-		ExpectProbes: []string{"probe:verdict_good", "probe:verdict_bad", "probe:verdict_wonky", "probe:offenders_added", "fault:invalid_block:verdict-other-vote-count"},
+		ExpectProbes: []string{"probe:verdict_good", "probe:verdict_bad", "probe:verdict_wonky", "probe:offenders_added", "fault:invalid_block:verdict-other-vote-count", "probe:judged_report_left_pending_availability"},
 	},
 	{
 		Property: "C31", Harness: "h4chain", Level: "exploration",
@@ -246,12 +255,12 @@ var checks = []Check{
 		Rule:         "one evaluation = one generated history: synthetic tiny genesis (6 trivial-seed validators, 1-3 services with storage / stored / solicited preimages, authorizer pools with duplicates), an author-built block tree (slot gaps across epoch boundaries, tickets, preimages, disputes with real Ed25519 votes, forks), preimage extrinsics provide solicited-but-unprovided blobs; blocks with unsorted, duplicated, unsolicited or already-provided entries must be rejected by a fresh node; every accepted preimage must be stored with the block's slot as the single start of its availability",
 		Real:         []string{"internal/fuzz.FuzzServiceStub SetState / ImportBlock / GetState", "internal/stf.RunSTF with every stage (safrole, disputes, assurances, reports, accumulation, history, preimages, authorizations, statistics)", "internal/blockchain.ChainState commit / restore / prune, stores on the in-memory provider, leaf cache", "state codec (StateEncoder / StateKeyValsToState) and block codec on every delivery"},
 		Stub:         []string{vrfStub, "block author = harness code (fallback and ticket seals through the stand-in, real Ed25519 for disputes); it is not an oracle", "multi-node = sequential incarnations of the process-wide chain-state singleton separated by SetState"},
-		Assumptions:  []string{"the VRF is a stand-in: nothing about Bandersnatch is decided and ticket identifiers are stand-in outputs", "one chain state per process: the clean reference node and the node under test are sequential incarnations", "blocks come from the harness author: chains of 3-30 (thorough 60) blocks over several epochs with tickets, preimages and disputes; no guarantees/assurances yet (stage A)"},
+		Assumptions:  []string{"the VRF is a stand-in: nothing about Bandersnatch is decided and ticket identifiers are stand-in outputs", "one chain state per process: the clean reference node and the node under test are sequential incarnations", "blocks come from the harness author: chains of 3-30 (thorough 60) blocks over several epochs with tickets, preimages, disputes (also against pending reports), assurances, guarantees (current and previous rotation, dependencies between packages) and the accumulation of the reports that become available by real PVM runs of small generated service programs (write, checkpoint, assign, transfer, yield)"},
 		LevelText:    "seeded exploration of admission and integration over block histories; evidence, not proof. PARTIAL: the historical-lookup function clause is a pure function that no on-chain path reaches and is not decided here",
 		LevelNote:    "",
 		Technique:    "deterministic simulation of the node under seeded block histories with fault injection (invalid blocks rejected at chosen STF stages, retries, children of rejected blocks, forks, restarts from exported state), reference-node and reference-model oracles, tape shrinking + fresh-process replay",
 		DesignRef:    "DESIGN.md §4 H4, Appendix A",
-		ExpectProbes: []string{"probe:preimage_integrated", "fault:invalid_block:preimage-unsolicited", "fault:invalid_block:preimage-already-provided", "fault:invalid_block:preimages-unsorted"},
+		ExpectProbes: []string{"probe:preimage_integrated", "fault:invalid_block:preimage-unsolicited", "fault:invalid_block:preimage-already-provided", "fault:invalid_block:preimages-unsorted", "fault:invalid_block:preimage-duplicate"},
 	},
 	{
 		Property: "C24", Harness: "h4chain", Level: "exploration",
@@ -261,12 +270,27 @@ var checks = []Check{
 		Rule:         "one evaluation = one generated history: synthetic tiny genesis (6 trivial-seed validators, 1-3 services with storage / stored / solicited preimages, authorizer pools with duplicates), an author-built block tree (slot gaps across epoch boundaries, tickets, preimages, disputes with real Ed25519 votes, forks), for every accepted block the reference pool transition per core (prior pool minus the leftmost occurrence of each authorizer used by that core's guarantees, plus the queue entry selected by the slot, last O kept) is compared with the exported state",
 		Real:         []string{"internal/fuzz.FuzzServiceStub SetState / ImportBlock / GetState", "internal/stf.RunSTF with every stage (safrole, disputes, assurances, reports, accumulation, history, preimages, authorizations, statistics)", "internal/blockchain.ChainState commit / restore / prune, stores on the in-memory provider, leaf cache", "state codec (StateEncoder / StateKeyValsToState) and block codec on every delivery"},
 		Stub:         []string{vrfStub, "block author = harness code (fallback and ticket seals through the stand-in, real Ed25519 for disputes); it is not an oracle", "multi-node = sequential incarnations of the process-wide chain-state singleton separated by SetState"},
-		Assumptions:  []string{"the VRF is a stand-in: nothing about Bandersnatch is decided and ticket identifiers are stand-in outputs", "one chain state per process: the clean reference node and the node under test are sequential incarnations", "blocks come from the harness author: chains of 3-30 (thorough 60) blocks over several epochs with tickets, preimages and disputes; no guarantees/assurances yet (stage A)"},
-		LevelText:    "seeded exploration over many slots with pools that contain duplicates; evidence, not proof. Stage A: no guarantees, so the removal clause is not exercised yet",
+		Assumptions:  []string{"the VRF is a stand-in: nothing about Bandersnatch is decided and ticket identifiers are stand-in outputs", "one chain state per process: the clean reference node and the node under test are sequential incarnations", "blocks come from the harness author: chains of 3-30 (thorough 60) blocks over several epochs with tickets, preimages, disputes (also against pending reports), assurances, guarantees (current and previous rotation, dependencies between packages) and the accumulation of the reports that become available by real PVM runs of small generated service programs (write, checkpoint, assign, transfer, yield)"},
+		LevelText:    "seeded exploration over many slots with pools that contain duplicates, guarantees that use pool entries and services that replace a core's queue during accumulation; evidence, not proof",
 		LevelNote:    "",
 		Technique:    "deterministic simulation of the node under seeded block histories with fault injection (invalid blocks rejected at chosen STF stages, retries, children of rejected blocks, forks, restarts from exported state), reference-node and reference-model oracles, tape shrinking + fresh-process replay",
 		DesignRef:    "DESIGN.md §4 H4, Appendix A",
-		ExpectProbes: []string{"probe:pool_overflow_oldest_dropped"},
+		ExpectProbes: []string{"probe:pool_overflow_oldest_dropped", "probe:authorizer_removed_from_pool"},
+	},
+	{
+		Property: "C21", Harness: "h4chain", Level: "exploration",
+		Quick:        tierCfg{budget: 150, maxRuns: 60, shrink: 100},
+		Thorough:     tierCfg{budget: 1200, shrink: 1000},
+		RunTimeoutS:  240,
+		Rule:         "one evaluation = one generated history (see C26) in which work reports are guaranteed, assured, become available and are accumulated; for every accepted block the reference selection (GP 12.4-12.12: dependency-free available reports, then the ready queue rotated to the block's slot plus the new reports with dependencies, edited by what is already accumulated, resolved repeatedly) and the reference updates of the accumulated history (12.31/12.32) and of the ready queue (12.33, incl. slot gaps) are compared with the exported state; the statement's invariants (nothing accumulated twice, the kept queue holds no accumulated report and no satisfied dependency) are checked directly; the order in which one service is given several reports is read from what its program stored",
+		Real:         []string{"internal/fuzz.FuzzServiceStub SetState / ImportBlock / GetState", "internal/stf.RunSTF with every stage (safrole, disputes, assurances, reports, accumulation, history, preimages, authorizations, statistics)", "internal/blockchain.ChainState commit / restore / prune, stores on the in-memory provider, leaf cache", "state codec (StateEncoder / StateKeyValsToState) and block codec on every delivery"},
+		Stub:         []string{vrfStub, "block author = harness code (fallback and ticket seals through the stand-in, real Ed25519 for disputes); it is not an oracle", "multi-node = sequential incarnations of the process-wide chain-state singleton separated by SetState"},
+		Assumptions:  []string{"the VRF is a stand-in: nothing about Bandersnatch is decided and ticket identifiers are stand-in outputs", "one chain state per process: the clean reference node and the node under test are sequential incarnations", "blocks come from the harness author: chains of 3-30 (thorough 60) blocks over several epochs with tickets, preimages, disputes (also against pending reports), assurances, guarantees (current and previous rotation, dependencies between packages) and the accumulation of the reports that become available by real PVM runs of small generated service programs (write, checkpoint, assign, transfer, yield)"},
+		LevelText:    "seeded exploration of multi-block histories of the ready queue and the accumulated history across slot gaps, epoch boundaries, forks, rejected blocks and restarts; evidence, not proof. PARTIAL: the exhaustive enumeration of all dependency graphs on <=4 reports named in the quantifier is bounded model checking of a pure function and is not done by this technique; graphs arise from the generated histories (<=2 cores, <=2 dependencies per report, chains through the recent history and the same extrinsic)",
+		LevelNote:    "",
+		Technique:    "deterministic simulation of the node under seeded block histories with fault injection (invalid blocks rejected at chosen STF stages, retries, children of rejected blocks, forks, restarts from exported state), reference-node and reference-model oracles, tape shrinking + fresh-process replay",
+		DesignRef:    "DESIGN.md §4 H4, Appendix A",
+		ExpectProbes: []string{"probe:reports_became_available", "probe:report_waits_in_ready_queue", "probe:queued_report_accumulated_after_its_dependency"},
 	},
 	{
 		Property: "C22", Harness: "h2sched", Level: "exploration",
@@ -281,7 +305,7 @@ var checks = []Check{
 		LevelNote:    "trusted: the AST instrumenter preserves behaviour; canonical dump is harness code; baseline arm = one worker, sorted map order, first-runnable schedule",
 		Technique:    "deterministic simulation: seeded scheduler over real goroutines (synctest bubble + errgroup/lock/singleflight/host-call seams), simulated map iteration order and worker-pool knob, N-version comparison of posterior states, tape shrinking + fresh-process replay",
 		DesignRef:    "DESIGN.md §3.3, §4 H2, §5 C22",
-		ExpectProbes: []string{"probe:receiver_with_more_than_a_dozen_transfers", "arm:workers=1", "arm:workers=2", "arm:workers=3", "arm:workers=16", "fault:schedule_decisions"},
+		ExpectProbes: []string{"probe:receiver_with_more_than_a_dozen_transfers", "arm:workers=1", "arm:workers=2", "arm:workers=3", "arm:workers=16", "fault:schedule_decisions", "probe:account_ejected_in_round", "probe:transfer_to_account_ejected_in_same_round"},
 	},
 	{
 		Property: "C10", Harness: "h3acc", Level: "fault_enumeration",
